@@ -61,7 +61,12 @@ def deep_match(got, exp, path=""):
             yield path + "/is-dict", False
             return
         for k, v in exp.items():
-            if k not in got:
+            if isinstance(v, Optional):
+                # the key is present exactly when the condition holds (on this path `k in got` is a plain boolean)
+                yield "%s/%s-present-iff-specified" % (path, k), v.cond if k in got else V.bnot(v.cond)
+                if k in got:
+                    yield from deep_match(got[k], v.value, "%s/%s" % (path, k))
+            elif k not in got:
                 yield "%s/%s-present" % (path, k), False
             else:
                 yield from deep_match(got[k], v, "%s/%s" % (path, k))
@@ -75,6 +80,12 @@ def deep_match(got, exp, path=""):
             yield from deep_match(g, e, "%s[%d]" % (path, i))
     elif isinstance(exp, _Skip):
         yield path + "/(not compared: %s)" % exp.why, True
+    elif isinstance(exp, Call):
+        ok = isinstance(got, CallRecord) and got.name == exp.name and len(got.args) == len(exp.args)
+        yield "%s/is-the-result-of-%s" % (path, exp.name), ok
+        if ok:
+            for i, (g, e) in enumerate(zip(got.args, exp.args)):
+                yield from deep_match(g, e, "%s/%s-argument%d" % (path, exp.name, i))
     else:
         yield path, V.compare("==", got, exp) if isinstance(got, (int, V.SInt)) else (got == exp)
 
@@ -84,6 +95,35 @@ class _Skip:
         self.why = why
 
 
+class Optional:
+    """expected dictionary entry that is present iff cond"""
+
+    def __init__(self, cond, value):
+        self.cond, self.value = cond, value
+
+
+class Call:
+    """expected value: the result of the (separately verified) callee applied to these arguments"""
+
+    def __init__(self, name, *args):
+        self.name, self.args = name, args
+
+
+class CallRecord:
+    """what a callee contract returns during a step unit: uninterpreted, remembers the actual arguments"""
+
+    def __init__(self, name, args):
+        self.name, self.args = name, args
+
+
+def _callee_contract(name, is_classmethod):
+    def handler(I, *args, **kwargs):
+        I.calls.append("contract:%s(uninterpreted)" % name)
+        return CallRecord(name, tuple(args[1:] if is_classmethod else args))
+
+    return handler
+
+
 class StepUnit(Unit):
     """one stride loop; subclasses give decoder, loop ordinal, accumulator name, the spec of one item and the extent"""
 
@@ -91,8 +131,9 @@ class StepUnit(Unit):
     witness = False
     decoder = None  # (module, class, function name)
     loop = 0
-    acc = None  # name of the accumulator list in the decoder
+    acc = None  # name of the accumulator list in the decoder, or (name of a dict, key) when it lives in a dictionary
     kwargs = {}
+    callees = ()  # names of class methods replaced by their contract: an uninterpreted result that records the arguments
 
     def functions(self):
         return [self._fn()[1]]
@@ -115,9 +156,13 @@ class StepUnit(Unit):
         def whole_descriptor(frame, old):
             # the conformance precondition of the step obligations: the loop-head buffer holds a whole descriptor
             exp, stride, need = self.item(View(old), frame.env)
-            return [V.compare(">=", V.buf_len(old), need)]
+            return [V.compare(">=", V.buf_len(old), need)] + list(self.whole_extra(View(old)))
 
-        return {"loop_hook": loops.make_hook(fn, self.loop, capture=True, head_assume=whole_descriptor), "for_hook": loops.make_for_hook(fn), "contracts": l0_contracts()}
+        contracts = dict(l0_contracts())
+        for name in self.callees:
+            d = cls.__dict__[name]
+            contracts[d.__func__ if isinstance(d, (classmethod, staticmethod)) else d] = _callee_contract(name, isinstance(d, classmethod))
+        return {"loop_hook": loops.make_hook(fn, self.loop, capture=True, head_assume=whole_descriptor), "for_hook": loops.make_for_hook(fn), "contracts": contracts}
 
     def _loop_node(self):
         cls, fn, _ = self._fn()
@@ -141,6 +186,28 @@ class StepUnit(Unit):
             return s.info
         return {"reached": False}
 
+    def whole_extra(self, view):
+        """further conformance preconditions on the first descriptor of the loop-head buffer"""
+        return []
+
+    bounded_unit = None  # the enumerated-count contract of the same decoder (natively evaluable)
+
+    def replay_redirect(self, case, tier):
+        """a failed step / extent obligation speaks about a loop-head state; look for a concrete response on which
+        the enumerated-count contract of the same decoder fails (that one is replayed natively)"""
+        from pyvc.verify import verify_case
+        from pyvc.unit import REGISTRY
+
+        u = REGISTRY.get(self.bounded_unit)
+        if u is None:
+            return None
+        for c in u.cases(tier)[:24]:
+            r = verify_case(self.bounded_unit, c, "C04", tier, {"no_witness": True, "explore_budget_s": 60})
+            for v in r["violations"]:
+                if v.get("inputs") is not None:
+                    return self.bounded_unit, c, v["inputs"]
+        return None
+
     # ---- to be provided
     def item(self, view, env):
         """(expected element, stride, minimum length for a whole descriptor) from the first descriptor of the view"""
@@ -151,6 +218,9 @@ class StepUnit(Unit):
         raise NotImplementedError
 
     def element(self, env):
+        if isinstance(self.acc, tuple):
+            holder = env.get(self.acc[0])
+            return holder.get(self.acc[1]) if isinstance(holder, dict) else None
         acc = env.get(self.acc)
         return acc
 
@@ -182,7 +252,7 @@ class StepUnit(Unit):
         # ---- step, under the conformance precondition: a whole descriptor is present
         view = View(old)
         exp, stride, need = self.item(view, env)
-        whole = V.compare(">=", V.buf_len(old), need)
+        whole = V.band(V.compare(">=", V.buf_len(old), need), *self.whole_extra(view))
         acc = self.element(env)
         yield "C04", "step:exactly-one-element-appended", V.bor(V.bnot(whole), isinstance(acc, list) and len(acc) == 1)
         if isinstance(acc, list) and len(acc) == 1:
@@ -212,6 +282,7 @@ def be(view, lo, n):
 
 
 class GetLbaStatusStep(StepUnit):
+    bounded_unit = "decode/GetLBAStatus"
     name = "decode/GetLBAStatus:step"
     decoder = ("scsi_cdb_getlbastatus", "GetLBAStatus", "unmarshall_datain")
     acc = "_lbas"
@@ -224,6 +295,7 @@ class GetLbaStatusStep(StepUnit):
 
 
 class PRInReadKeysStep(StepUnit):
+    bounded_unit = "decode/PRIn:ReadKeys"
     name = "decode/PRIn:ReadKeys:step"
     decoder = ("scsi_cdb_persistentreservein", "PersistentReserveInReadKeys", "unmarshall_datain")
     acc = "keys"
@@ -236,6 +308,7 @@ class PRInReadKeysStep(StepUnit):
 
 
 class ReportLunsStep(StepUnit):
+    bounded_unit = "decode/ReportLuns"
     name = "decode/ReportLuns:step"
     decoder = ("scsi_cdb_report_luns", "ReportLuns", "unmarshall_datain")
     acc = "_luns"
@@ -268,6 +341,7 @@ def deep_match(got, exp, path=""):  # noqa: F811  (extends the matcher for the L
 
 
 class ReportPriorityStep(StepUnit):
+    bounded_unit = "decode/ReportPriority"
     name = "decode/ReportPriority:step"
     header = 4
     decoder = ("scsi_cdb_report_priority", "ReportPriority", "unmarshall_datain")
@@ -283,4 +357,56 @@ class ReportPriorityStep(StepUnit):
         return 4, be(dv, 0, 4) + 4
 
 
-UNITS = [register(u) for u in (GetLbaStatusStep(), PRInReadKeysStep(), ReportLunsStep(), ReportPriorityStep())]
+class PRInFullStatusStep(StepUnit):
+    """READ FULL STATUS: the TransportID is decoded by unmarshall_transport_id (verified per protocol kind by
+    decode/TransportID and decode/PRIn:ReadFullStatus); here it is the callee's result on the bytes that follow the
+    24-byte fixed part"""
+
+    bounded_unit = "decode/PRIn:ReadFullStatus"
+    name = "decode/PRIn:ReadFullStatus:step"
+    decoder = ("scsi_cdb_persistentreservein", "PersistentReserveInReadFullStatus", "unmarshall_datain")
+    acc = ("result", "full_status")
+    callees = ("unmarshall_transport_id",)
+
+    def item(self, view, env):
+        head = view.decode(D.PRIN_FULL_STATUS_DESCRIPTOR_HEAD)
+        adl = be(view, 20, 4)
+        exp = dict(head, transport_id=Call("unmarshall_transport_id", view.sub(24, V.buf_len(view.buf) - 24)))
+        self._adl = adl
+        return exp, 24 + adl, 24 + adl
+
+    def whole_extra(self, view):
+        # a full status descriptor always carries a TransportID (SPC-4 6.15.5: ADDITIONAL DESCRIPTOR LENGTH >= 24)
+        return [V.compare(">", be(view, 20, 4), 0)]
+
+    def extent(self, dv, n):
+        return 8, be(dv, 4, 4) + 8
+
+
+class Vpd83Step(StepUnit):
+    """Device Identification VPD page: the designator is decoded by unmarshall_designator (verified per designator
+    type and length by decode/VPD83); here it is the callee's result on (DESIGNATOR TYPE, the DESIGNATOR LENGTH bytes
+    after the 4-byte header)"""
+
+    bounded_unit = "decode/Inquiry:vpd-83"
+    name = "decode/VPD83:step"
+    header = 4
+    decoder = ("scsi_cdb_inquiry", "Inquiry", "unmarshall_datain")
+    kwargs = {"evpd": 1}
+    acc = "_d"
+    callees = ("unmarshall_designator",)
+
+    def item(self, view, env):
+        h = view.decode(D.DESIGNATION_HEADER)
+        n = h["designator_length"]
+        valid = V.band(h["piv"] == 1, V.bor(h["association"] == 1, h["association"] == 2))
+        exp = dict(h)
+        exp["protocol_identifier"] = Optional(valid, h["protocol_identifier"])
+        exp["designator"] = Call("unmarshall_designator", h["designator_type"], view.sub(4, n))
+        return exp, 4 + n, 4 + n
+
+    def extent(self, dv, n):
+        return 4, be(dv, 2, 2) + 4
+
+
+UNITS = [register(u) for u in (GetLbaStatusStep(), PRInReadKeysStep(), ReportLunsStep(), ReportPriorityStep(), PRInFullStatusStep(), Vpd83Step())]
